@@ -56,6 +56,11 @@ static std::vector<Ev> alphabet()
     for (auto n : { "a", "b" })
         for (auto s : { "x", "y", "", "xy" })
             a.push_back({ 'S', 'o', n, "", s });
+    // a third name, "ab": it extends the name "a" (prefix relation between declared names) and makes three lettered items
+    // possible (two sharing a letter with a differently lettered one in between); kept small: option on the parser only
+    a.push_back({ 'D', 'o', "ab", "", "" });
+    a.push_back({ 'S', 'o', "ab", "", "x" });
+    a.push_back({ 'S', 'o', "ab", "", "y" });
     a.push_back({ 'M' });
     a.push_back({ 'K' });
     a.push_back({ 'P' });
@@ -180,7 +185,7 @@ static StepResult apply(Live& L, RefState& R, const Ev& e)
         {
             if (e.kind == 'o')
             {
-                auto& x = (e.group.empty() && e.name == "a") ? L.p->option(e.name) : L.group_for(e.group, e.name).option(e.name);
+                auto& x = (e.group.empty() && e.name != "b") ? L.p->option(e.name) : L.group_for(e.group, e.name).option(e.name);
                 x.optional();
                 addr = &x;
                 L.o[e.name] = &x;
@@ -549,7 +554,7 @@ int main(int argc, char** argv)
     auto rep = sh.run();
     rep.counters["bound_history_depth"] = d;
     rep.counters["events"] = alpha.size();
-    rep.notes["rule"] = "29 events (declare 3 kinds x names a|b x parser|g1|g2; short_name x|y|''|'xy'; MOVE destroying / keeping the old parser; PARSE); every history of "
+    rep.notes["rule"] = "32 events (declare 3 kinds x names a|b x parser|g1|g2, option ab; short_name x|y|''|'xy'; MOVE destroying / keeping the old parser; PARSE); every history of "
                         "length <= d without de-duplication, then BFS to a fixpoint de-duplicated on the reference state + moved "
                         "flag from each first event; probes (empty vector, every long and short spelling) at every state; "
                         "non-trivial = histories reaching a state with two items or after a MOVE";
